@@ -552,6 +552,43 @@ func runWalk(c *Ctx) {
 				"a value manufactured by reflect reaches a vertex, the argument map or an argument field only in planning mode", ternary(g, "guarded by the planning flag", "reaches "+sink+" outside planning mode"))
 		})
 	}
+	// the value-or-zero accessor (an unset value read as the zero of its type) serves the renderers of a signature only:
+	// anything else that reads values through it — the Value handed to a converter generator, a vertex value — would
+	// present "nobody supplied this" as a supplied zero
+	for _, vz := range c.valueOrZeroCandidates() {
+		if !c.isValueOrZeroFunc(vz) {
+			continue
+		}
+		sv := p.Method(p.Arg, "ValueSet", "SignatureValues")
+		stray := ""
+		for _, site := range p.Callers(vz) {
+			f := core.Outer(site.Parent())
+			if sv != nil && (f == sv || p.InRegion(f, sv)) {
+				continue
+			}
+			stray = core.FuncName(site.Parent()) + " at " + p.InstrPos(site)
+		}
+		// handed out as a function value (a rendering strategy) only to steps of the renderer
+		for _, g := range p.ArgFuncs() {
+			core.Instrs(g, func(in ssa.Instruction) {
+				for _, op := range in.Operands(nil) {
+					if *op != ssa.Value(vz) {
+						continue
+					}
+					if ci, ok := in.(ssa.CallInstruction); ok && ci.Common().StaticCallee() == vz {
+						continue
+					}
+					f := core.Outer(g)
+					if sv != nil && (f == sv || p.InRegion(f, sv)) {
+						continue
+					}
+					stray = core.FuncName(g) + " at " + p.InstrPos(in) + " (as a function value)"
+				}
+			})
+		}
+		c.R.Add("FAB", core.FuncName(vz)+"|only-the-renderer-reads-unset-as-zero", core.FuncName(vz), p.Pos(vz.Pos()), stray == "",
+			"an unset value is turned into the zero of its type only while rendering a signature (SignatureValues and its steps)", ternary(stray == "", "called by the renderer only", "also used by "+stray))
+	}
 }
 
 // afterWithin: instruction b can execute after a before control returns to block `start` (the iteration start).
